@@ -57,6 +57,9 @@ def sh(cmd, cwd=None, timeout=None, env=None):
 
 # ---------------------------------------------------------------- line servers
 
+MAX_HANGS = 30
+
+
 class Server:
     """A line server (harness or Lean driver). ask() answers every line; a request that
     does not answer within its timeout yields 'hang', a dead process yields 'abort'."""
@@ -82,6 +85,11 @@ class Server:
             answers.append(status)  # 'hang' or 'abort' for line i
             i += 1
             self.restarts += 1
+            # a build in which dozens of requests hang is broken beyond doubt: do not spend a watchdog period on each of
+            # the remaining requests (never reached on the unchanged tree: deliberate hang cases are a handful per check)
+            if answers.count("hang") >= MAX_HANGS:
+                answers.extend(["hang"] * (n - i))
+                break
         return answers
 
     def _run(self, lines, touts):
